@@ -162,14 +162,14 @@ impl Actor for ScriptActor {
         let t = now_us();
         let cmds = self.run(&self.start, o);
         let chain = crate::rng::mix(&[self.index as u64, 1]);
-        log(json!({"t": t, "who": "actor", "actor": self.index, "id": usize::from(id), "ev": "start", "state_in": 0, "state_out": chain, "cmds": cmds}));
+        log(json!({"t": t, "t_end": now_us(), "who": "actor", "actor": self.index, "id": usize::from(id), "ev": "start", "state_in": 0, "state_out": chain, "cmds": cmds}));
         UState { chain }
     }
     fn on_msg(&self, id: Id, state: &mut Cow<UState>, src: Id, msg: UMsg, o: &mut Out<Self>) {
         let t = now_us();
         let (a, b) = self.step(state, msg.tag as u64);
         let cmds = self.run(&msg.cmds, o);
-        log(json!({"t": t, "who": "actor", "actor": self.index, "id": usize::from(id), "ev": "msg", "src": usize::from(src), "tag": msg.tag,
+        log(json!({"t": t, "t_end": now_us(), "who": "actor", "actor": self.index, "id": usize::from(id), "ev": "msg", "src": usize::from(src), "tag": msg.tag,
                    "carried": msg.cmds.len(), "state_in": a, "state_out": b, "cmds": cmds}));
     }
     fn on_timeout(&self, id: Id, state: &mut Cow<UState>, timer: &u8, o: &mut Out<Self>) {
@@ -179,7 +179,7 @@ impl Actor for ScriptActor {
             Some(c) => self.run(c, o),
             None => vec![],
         };
-        log(json!({"t": t, "who": "actor", "actor": self.index, "id": usize::from(id), "ev": "timeout", "timer": timer, "state_in": a, "state_out": b, "cmds": cmds}));
+        log(json!({"t": t, "t_end": now_us(), "who": "actor", "actor": self.index, "id": usize::from(id), "ev": "timeout", "timer": timer, "state_in": a, "state_out": b, "cmds": cmds}));
     }
 }
 
@@ -316,6 +316,13 @@ pub fn udp_worker(args: &[String]) -> i32 {
                     cmds.extend(extra);
                     cmds.push(c);
                 }
+                if rng.pct(6) {
+                    // a large but perfectly valid datagram (10-45 kB of harmless commands): it must
+                    // arrive whole or not at all
+                    for _ in 0..rng.range(3_000, 15_000) {
+                        cmds.push(UCmd::CancelTimer(9));
+                    }
+                }
                 if rng.pct(15) {
                     // arm a timer and cancel it again in the same handler: it must not fire
                     let t = rng.below(3) as u8;
@@ -378,9 +385,12 @@ pub fn check_log(v: &Value) -> Result<BTreeMap<&'static str, u64>, (String, Valu
     let mut sent_to_actor: BTreeMap<u64, (u64, usize)> = BTreeMap::new();
     // what actors sent to driver sockets: tag -> (actor index, driver id)
     let mut sent_to_driver: BTreeMap<u64, (usize, u64, u64)> = BTreeMap::new(); // (actor, driver id, times commanded)
+    // number of commands each driver datagram carried (the message the actor must be handed)
+    let mut carried_by_tag: BTreeMap<u64, u64> = BTreeMap::new();
     for e in &events {
         if e["who"] == "driver" && e["ev"] == "send" {
             sent_to_actor.insert(e["tag"].as_u64().unwrap(), (e["from_id"].as_u64().unwrap(), e["to_actor"].as_u64().unwrap() as usize));
+            carried_by_tag.insert(e["tag"].as_u64().unwrap(), e["carried"].as_u64().unwrap_or(0));
         }
         if e["who"] == "actor" {
             let me = e["actor"].as_u64().unwrap() as usize;
@@ -449,6 +459,11 @@ pub fn check_log(v: &Value) -> Result<BTreeMap<&'static str, u64>, (String, Valu
                         if e["src"].as_u64() != Some(*from_id) {
                             return fail("on_msg-src-id-is-not-derived-from-the-sender-address", json!({"event": e, "sender_id": from_id}));
                         }
+                        if let Some(sent_cmds) = carried_by_tag.get(&tag) {
+                            if e["carried"].as_u64() != Some(*sent_cmds) {
+                                return fail("on_msg-got-a-different-message-than-the-datagram-carried", json!({"event": e, "commands_in_the_datagram_sent": sent_cmds}));
+                            }
+                        }
                     }
                 }
                 if !delivered_tags.insert(tag) {
@@ -471,10 +486,12 @@ pub fn check_log(v: &Value) -> Result<BTreeMap<&'static str, u64>, (String, Valu
             }
             _ => {}
         }
-        // commands of this handler take effect after it (arming time >= handler start time)
+        // commands of this handler take effect after it returned: a timer is armed no earlier
+        // than the handler's end (a slow handler must not eat into the timer's lower bound)
+        let t_armed = e["t_end"].as_u64().unwrap_or(t);
         for c in e["cmds"].as_array().unwrap() {
             if let Some(timer) = c["set"].as_u64() {
-                armed.insert((me, timer), Some((t, c["lo_ms"].as_u64().unwrap())));
+                armed.insert((me, timer), Some((t_armed, c["lo_ms"].as_u64().unwrap())));
                 *stats.entry("timer_armings").or_default() += 1;
             }
             if let Some(timer) = c["cancel"].as_u64() {
